@@ -65,6 +65,7 @@ class Explorer:
         self.executions = 0
         self.capped = False
         self.max_points = 0
+        self.count_root = True
 
     def _exec(self, prefix, expect):
         ctx = Ctx(prefix, expect, self.horizon)
@@ -75,6 +76,29 @@ class Explorer:
             raise Divergence("execution consumed %d of %d replayed choices"
                              % (len(ctx.choices), len(prefix)))
         return ctx
+
+    def explore_sharded(self, shard_index, nshards):
+        """Exhaustive exploration split over `nshards` workers: every worker executes the
+        default run (cheap), shard 0 judges/counts it (`self.is_root_owner`), and the subtrees
+        below the FIRST-level alternatives are dealt round-robin.  The union over all shards
+        is exactly the set of executions of `explore()`."""
+        bound = self.bound if isinstance(self.bound, tuple) else (self.bound,)
+        self.count_root = (shard_index == 0)
+        ctx = self._exec([], [])
+        pts, ch = ctx.points, ctx.choices
+        k = 0
+        for i in range(len(pts)):
+            arity, label = pts[i]
+            for alt in range(1, arity):
+                c = self.cost(label, alt)
+                if c is None:
+                    continue
+                c = c if isinstance(c, tuple) else (c,)
+                if any(x > b for x, b in zip(c, bound)):
+                    continue
+                if k % nshards == shard_index:
+                    self.explore(ch[:i] + [alt], pts[:i + 1], c)
+                k += 1
 
     def explore(self, prefix=(), expect=(), used=None):
         """`bound` and the values of `cost` may be ints or equal-length tuples
